@@ -3,6 +3,9 @@
 //! observation: `ok` then, per attribute of the document element sorted by qualified name,
 //! ` <qname>/<normalized value>/<info specified 0|1>/<dom specified 0|1>/<declared type>`
 //! (names and values as code points); `err` when the document is refused or an accessor fails.
+//! case line `c <document>`: the same observation, but BEFORE the attributes are read the value of every
+//! entity reference in the content of the document element is read (what reading the text does): the
+//! attribute values may not depend on what was read earlier.
 use crate::util::{dec, enc};
 use xml_dom::Attr;
 use xml_info::{Attribute, Document, Element, HasQName, Value, XmlDeclarationAttType};
@@ -27,6 +30,11 @@ fn ty_name(t: &Value<Option<XmlDeclarationAttType>>) -> &'static str {
 }
 
 pub fn case(line: &str) -> String {
+    let line = line.trim();
+    let (content_first, line) = match line.strip_prefix("c ") {
+        Some(rest) => (true, rest),
+        None => (false, line),
+    };
     let text = match dec(line.trim()) {
         Some(s) => s,
         None => return "badinput".to_string(),
@@ -46,6 +54,14 @@ pub fn case(line: &str) -> String {
         Ok(r) => r,
         Err(_) => return "err root".to_string(),
     };
+    if content_first {
+        use xml_info::HasChildren;
+        for c in root.borrow().children().iter() {
+            if let xml_info::XmlItem::Unexpanded(r) = c.as_ref() {
+                let _ = r.borrow().value();
+            }
+        }
+    }
     let mut rows: Vec<(String, String)> = vec![];
     for a in root.borrow().attributes().iter() {
         let qn = {
